@@ -2164,6 +2164,7 @@ func (ft *ftrans) updateCall(x ast.Expr, e env, rest cont) node {
 	if cal.Updates != nil {
 		return nil // the updated value is an argument: updateAssign
 	}
+	ft.rebinds(id.Obj)
 	var pre []prelude
 	var as []string
 	for _, a := range ce.Args {
@@ -4060,7 +4061,7 @@ func run(repo, leanDir, cfgPath string) (failed []string, err error) {
 			fmt.Fprintf(&b, "-- NOT TRANSLATED: %s\n\n", ce)
 			failed = append(failed, m.Out+": "+ce)
 		}
-		for _, sc := range m.Structs {
+		for _, sc := range t.structOrder(m.Structs) {
 			txt, err := t.emitStruct(sc)
 			if err != "" {
 				fmt.Fprintf(&b, "-- NOT TRANSLATED: %s type %s: %s\n\n", pkgLabel(sc.Pkg), sc.Go, err)
@@ -4088,4 +4089,37 @@ func run(repo, leanDir, cfgPath string) (failed []string, err error) {
 		}
 	}
 	return failed, nil
+}
+
+// structOrder: the configured order, except that a structure is emitted after the structures its fields mention
+func (t *translator) structOrder(in []*StructCfg) []*StructCfg {
+	texts := map[*StructCfg]string{}
+	for _, sc := range in {
+		txt, _ := t.emitStruct(sc)
+		if k := strings.Index(txt, " where\n"); k >= 0 {
+			txt = txt[k:]
+		}
+		texts[sc] = txt
+	}
+	var out []*StructCfg
+	done := map[*StructCfg]bool{}
+	var visit func(sc *StructCfg, depth int)
+	visit = func(sc *StructCfg, depth int) {
+		if done[sc] || depth > len(in) {
+			return
+		}
+		done[sc] = true
+		for _, other := range in {
+			if other != sc && !done[other] && strings.Contains(texts[sc]+" ", t.mod.Namespace+"."+other.Lean+")") ||
+				other != sc && !done[other] && strings.Contains(texts[sc]+"\n", t.mod.Namespace+"."+other.Lean+"\n") ||
+				other != sc && !done[other] && strings.Contains(texts[sc], t.mod.Namespace+"."+other.Lean+" ") {
+				visit(other, depth+1)
+			}
+		}
+		out = append(out, sc)
+	}
+	for _, sc := range in {
+		visit(sc, 0)
+	}
+	return out
 }
